@@ -17,7 +17,7 @@ MATCH = z3.Function('line_matches_name', z3.IntSort(), z3.BoolSort())   # "first
 N_LINES = z3.Int('n_lines')
 
 
-class Line:
+class Line(core.MockBase):
     """line `idx` of an arbitrary text file (empty string at and after end of file)"""
 
     def __init__(self, idx):
@@ -31,7 +31,7 @@ class Line:
         return Field(self.idx), ('rest-of-line', self.idx)
 
 
-class Field:
+class Field(core.MockBase):
     def __init__(self, idx):
         self.idx = idx
 
@@ -47,7 +47,7 @@ def idx_t(i):
     return i.t if isinstance(i, SymInt) else z3.IntVal(i)
 
 
-class TextFile:
+class TextFile(core.MockBase):
     def __init__(self, start=0):
         self.pos = start
 
@@ -125,7 +125,7 @@ def find_line(chk, mod):
     chk.canary(f'{pre}/requires', base + [MATCH(0)])
 
 
-class CSVLine:
+class CSVLine(core.MockBase):
     """remainder of a table line with arbitrary content: rstrip().split(',') yields abstract fields F0, F1, ..."""
 
     def __init__(self, n):
@@ -160,7 +160,7 @@ def parse_line(chk, mod):
     chk.decided(f'{MOD}:ScatteringParams._parse_line/isotope-name-kept', sp.isotope == 'X')
 
 
-class NumStr:
+class NumStr(core.MockBase):
     """a table field: blank or a decimal literal"""
 
     def __init__(self, name):
